@@ -51,6 +51,12 @@ func (f *Mapcar) Call(s *slip.Scope, args slip.List, depth int) (result slip.Obj
 	caller := ResolveToCaller(s, fn, d2)
 
 	pos++
+	// nil is the empty list, mapping over it yields nil.
+	for i := 1; i < len(args); i++ {
+		if args[i] == nil {
+			return nil
+		}
+	}
 	list, ok := args[pos].(slip.List)
 	if !ok && args[pos] != nil {
 		slip.TypePanic(s, depth, "lists", args[pos], "list")
